@@ -251,6 +251,11 @@ func NewFloatFromString(typ *types.FloatType, s string) (*Float, error) {
 		if f64, err := strconv.ParseFloat(s, 64); err == nil {
 			x = big.NewFloat(f64).SetPrec(precision)
 		}
+		// A literal above the range of half denotes infinity (65520 is the
+		// smallest value which rounds to infinity).
+		if !x.IsInf() && new(big.Float).Abs(x).Cmp(big.NewFloat(65520)) >= 0 {
+			x.SetInf(x.Signbit())
+		}
 		c := &Float{
 			Typ: typ,
 			X:   x,
